@@ -290,6 +290,155 @@ fn gen_env(tier: Tier) -> Vec<Value> {
   v
 }
 
+
+/// the sharing key K of a group (reference interpolation at zero over the first t distinct shares)
+pub fn sharing_key(g: &Group) -> Option<Vec<u8>> {
+  let mut pts: Vec<(BigUint, BigUint)> = vec![];
+  for m in &g.msgs {
+    let p = crate::refmodel::parse_adss(&m.share.to_bytes())?;
+    if p.s.y.len() != 1 || pts.iter().any(|q| q.0 == p.s.x) {
+      continue;
+    }
+    pts.push((p.s.x, p.s.y[0].clone()));
+    if pts.len() == g.t as usize {
+      break;
+    }
+  }
+  if pts.len() < g.t as usize {
+    return None;
+  }
+  Some(crate::refmodel::le24(&crate::refmodel::lagrange_at_zero(&pts))[..16].to_vec())
+}
+
+/// one thread, one client randomness, several thresholds in a row: sharings must not influence each other
+fn run_threshold_sequence(cx: &mut CaseCx, case: &Value) {
+  let ts: Vec<u32> = case["ts"].as_array().unwrap().iter().map(|v| v.as_u64().unwrap() as u32).collect();
+  let server_src = case["src"].as_str() == Some("server");
+  let meas = meas_alphabet(true)[case["m"].as_u64().unwrap() as usize].clone();
+  let epoch = b"epoch".to_vec();
+  cx.entropy(1);
+  // ONE 32-byte client randomness shared by all clients of all thresholds (fixed bytes, or one PPOPRF output)
+  let rnd: [u8; 32] = if server_src {
+    let s = pp::Server::new(vec![0, 1, 7]).expect("server");
+    match guard(|| server_randomness(&s, 1, &meas)) {
+      Ok(Ok(r)) => r,
+      _ => return,
+    }
+  } else {
+    prbytes(0xF1C5, 32).try_into().unwrap()
+  };
+  cx.nontrivial(fnv_str(&case.to_string()));
+  for (round, &t) in ts.iter().enumerate() {
+    let n = t as usize + 1;
+    let mut msgs = vec![];
+    for i in 0..n {
+      getrandom::verif::set_group((round * 100 + i) as u32 + 1);
+      match gen_report(&meas, &epoch, t, &rnd, &Some(vec![round as u8, i as u8])) {
+        Ok(m) => msgs.push(m),
+        Err(e) => {
+          cx.viol("C01/generate-failed", e, json!({"thresholds_in_order": ts, "round": round}));
+          return;
+        }
+      }
+    }
+    // every t-subset recovers and opens every report of this round
+    let mut failed = false;
+    for_each_subset(n, t as usize, |sel| {
+      if failed {
+        return;
+      }
+      let shares: Vec<sta_rs::Share> = sel.iter().map(|&i| msgs[i].share.clone()).collect();
+      cx.eval();
+      cx.count("states", 1);
+      cx.count("transitions", 1);
+      match recover_msg(&shares) {
+        Ok(Ok(m)) => {
+          for (i, msg) in msgs.iter().enumerate() {
+            match open_report(msg, &m, &epoch) {
+              Ok((mm, aa)) if mm == meas && aa == Some(vec![round as u8, i as u8]) => {}
+              other => {
+                cx.viol("C01/sequence/decrypt-mismatch", format!("threshold sequence {:?}, round {} (t={}): report {} does not open to its client's inputs: {:?}", ts, round, t, i, other.map(|x| (x.0.len(), x.1.map(|a| a.len())))), json!({"thresholds_in_order": ts, "round": round, "sel": sel}));
+                failed = true;
+              }
+            }
+          }
+          cx.count("ok_recoveries", 1);
+        }
+        other => {
+          cx.viol("C01/sequence/recover-failed", format!("clients sharing one 32-byte randomness reported under thresholds {:?} in this order on one thread; at round {} (t={}) {} distinct shares do not recover: {:?}", ts, round, t, t, other.map(|r| r.map(|_| ()))), json!({"thresholds_in_order": ts, "round": round, "sel": sel, "randomness": if server_src { "PPOPRF server" } else { "fixed 32 bytes" }}));
+          failed = true;
+        }
+      }
+    });
+    if failed {
+      return;
+    }
+  }
+  cx.outcome(format!("sequence of {} thresholds", ts.len()));
+  cx.sample(json!({"thresholds_in_order": ts, "randomness": if server_src { "PPOPRF server" } else { "fixed 32 bytes" }}));
+}
+
+/// boundary search on an internal value: measurements whose sharing key K has a zero / 0xff first or last byte
+fn run_boundary_keys(cx: &mut CaseCx, case: &Value) {
+  let t = case["t"].as_u64().unwrap() as u32;
+  let lo = case["lo"].as_u64().unwrap();
+  let mut hits = 0u64;
+  for i in lo..lo + 250 {
+    let cfgv = json!({"t": t, "m": 0, "e": 1});
+    let _ = cfgv;
+    let meas = format!("measurement-{}", i).into_bytes();
+    let epoch = b"e".to_vec();
+    let rnd = local_randomness(&meas, &epoch, t);
+    let n = t as usize + 1;
+    let mut msgs = vec![];
+    for k in 0..n {
+      getrandom::verif::set_group(k as u32 + 1);
+      if let Ok(m) = gen_report(&meas, &epoch, t, &rnd, &None) {
+        msgs.push(m);
+      }
+    }
+    if msgs.len() != n {
+      continue;
+    }
+    let xs: Vec<BigUint> = msgs.iter().filter_map(|m| share_x(&m.share.to_bytes())).collect();
+    let g = Group { msgs, xs, auxs: vec![None; n], meas: meas.clone(), epoch: epoch.clone(), t };
+    let k = match sharing_key(&g) {
+      Some(k) => k,
+      None => continue,
+    };
+    let special = k[15] == 0 || k[0] == 0 || k[15] == 0xff || k[0] == 0xff || k[8] == 0 || k.windows(2).any(|w| w == [0, 0]);
+    cx.count("keys_examined", 1);
+    if !special {
+      continue;
+    }
+    hits += 1;
+    cx.nontrivial(fnv(&meas) ^ t as u64);
+    cx.outcome(format!("K[0]={:#04x}? K[15]={:#04x}?", if k[0] == 0 || k[0] == 0xff { k[0] } else { 1 }, if k[15] == 0 || k[15] == 0xff { k[15] } else { 1 }));
+    // every t-subset (and the full set) must recover and open every report
+    let mut sels: Vec<Vec<usize>> = vec![(0..n).collect()];
+    for_each_subset(n, t as usize, |s| sels.push(s.to_vec()));
+    for sel in sels {
+      let shares: Vec<sta_rs::Share> = sel.iter().map(|&i| g.msgs[i].share.clone()).collect();
+      cx.eval();
+      cx.count("states", 1);
+      cx.count("transitions", 1);
+      match recover_msg(&shares) {
+        Ok(Ok(m)) => {
+          cx.count("ok_recoveries", 1);
+          for msg in &g.msgs {
+            if !matches!(open_report(msg, &m, &epoch), Ok((mm, None)) if mm == meas) {
+              cx.viol("C01/boundary-key/decrypt-mismatch", "report does not open", json!({"measurement": String::from_utf8_lossy(&meas), "t": t, "sharing_key": hex(&k)}));
+            }
+          }
+        }
+        other => cx.viol("C01/boundary-key/recover-failed", format!("measurement {:?} (t={}) has sharing key {} (a zero/0xff boundary byte): {} distinct shares do not recover: {:?}", String::from_utf8_lossy(&meas), t, hex(&k), sel.len(), other.map(|r| r.map(|_| ()))), json!({"measurement": String::from_utf8_lossy(&meas), "t": t, "sharing_key": hex(&k), "sel": sel})),
+      }
+    }
+  }
+  cx.count("boundary_keys_found", hits);
+  cx.sample(json!({"t": t, "measurements": format!("measurement-{}..{}", lo, lo + 250), "boundary_keys_found": hits}));
+}
+
 pub fn spec() -> PropSpec {
   PropSpec {
     id: "C01",
@@ -321,6 +470,49 @@ pub fn spec() -> PropSpec {
         gen: gen_env,
         run: run_cfg,
         min_counts: &[("ok_recoveries", 100), ("collisions_produced", 1)],
+      },
+      Check {
+        name: "threshold-sequences",
+        rule: "history on ONE thread with ONE 32-byte client randomness (fixed bytes / one PPOPRF output): every ordered sequence of 2 and 3 distinct thresholds from {1,2,3,5,6}; in each round t+1 clients report and EVERY t-subset must recover and open every report of that round (a sharing must not depend on what was shared before)",
+        gen: |tier| {
+          let ts = [1u64, 2, 3, 5, 6];
+          let mut v = vec![];
+          for &a in &ts {
+            for &b in &ts {
+              if a == b {
+                continue;
+              }
+              for src in ["fixed", "server"] {
+                v.push(json!({"ts": [a, b], "src": src, "m": 4}));
+                if tier.thorough() || src == "fixed" {
+                  for &c in &ts {
+                    if c != a && c != b {
+                      v.push(json!({"ts": [a, b, c], "src": src, "m": 1}));
+                    }
+                  }
+                }
+              }
+            }
+          }
+          v
+        },
+        run: run_threshold_sequence,
+        min_counts: &[("ok_recoveries", 200)],
+      },
+      Check {
+        name: "boundary-keys",
+        rule: "boundary search on an internal value: among measurements 'measurement-<i>' (quick 1000, thorough 6000 per threshold 1..3) those whose sharing key K (reference interpolation) has a 0x00/0xff first, middle or last byte or a 00 00 pair; for each, every t-subset and the full set must recover and open every report",
+        gen: |tier| {
+          let mut v = vec![];
+          for t in 1..=3u64 {
+            for c in 0..(if tier.thorough() { 24u64 } else { 4 }) {
+              v.push(json!({"t": t, "lo": c * 250}));
+            }
+          }
+          v
+        },
+        run: run_boundary_keys,
+        min_counts: &[("boundary_keys_found", 20)],
       },
     ],
   }
